@@ -10,13 +10,17 @@
 EXTENDS Integers, Sequences, FiniteSets, TLC
 
 Methods == {"syn", "sack", "prefer_sack"}
-Caps == {"sack_ok", "sack_ok_ts", "no_sackperm", "ack_nosack", "port_closed", "no_synack"}
+\* (unreachable: the connect is answered by an ICMP host-unreachable - a filter on the way - instead of a RST)
+\* (addr_mismatch: the target accepts and would do SACK, but the host's policy routing gives the TCP connection another source
+\*  address than the one the probes are crafted with - a LOCAL reason, not a statement about the target)
+Caps == {"sack_ok", "sack_ok_ts", "no_sackperm", "ack_nosack", "port_closed", "unreachable", "no_synack", "addr_mismatch"}
 Faults == {"none", "filter1", "filter2", "write1", "read_fatal"}
 
 \* outcome of one SACK attempt: <<result, notSupported>>
 SackAttempt(cap, f) ==
     IF f = "filter1" THEN <<"error", FALSE>>                      \* SetPacketFilter(SYNACK) fails
-    ELSE IF cap = "port_closed" THEN <<"error", TRUE>>            \* dial fails -> NotSupportedError
+    ELSE IF cap \in {"port_closed", "unreachable"} THEN <<"error", TRUE>>   \* dial fails (refused / no route to host) -> NotSupportedError
+    ELSE IF cap = "addr_mismatch" THEN <<"error", FALSE>>         \* the connection's local address is not the expected one: plain error
     ELSE IF f = "read_fatal" THEN <<"error", FALSE>>              \* ReadHandshake: fatal read error
     ELSE IF cap = "no_synack" THEN <<"error", FALSE>>             \* readHandshake timed out: not a capability statement
     ELSE IF cap = "no_sackperm" THEN <<"error", TRUE>>            \* missing SACK-permitted -> NotSupportedError
@@ -37,9 +41,9 @@ Code(m, cap, f) ==
             IF a[2] THEN [out |-> IF f = "none" THEN "syn" ELSE "error", dialed |-> TRUE, notsup |-> FALSE, fallback |-> TRUE]
             ELSE [out |-> a[1], dialed |-> f # "filter1", notsup |-> FALSE, fallback |-> FALSE]
 
-Unavailable(cap) == cap \in {"port_closed", "no_sackperm", "ack_nosack"}
+Unavailable(cap) == cap \in {"port_closed", "unreachable", "no_sackperm", "ack_nosack"}
 \* the faults that hit the SACK attempt before its capability is known
-Before(cap, f) == f = "filter1" \/ (f = "read_fatal" /\ cap # "port_closed")
+Before(cap, f) == f = "filter1" \/ (f = "read_fatal" /\ cap \notin {"port_closed", "unreachable"})
                   \/ (f \in {"filter2", "write1"} /\ cap \in {"sack_ok", "sack_ok_ts", "ack_nosack"})
 
 VARIABLES c, dec
